@@ -4,12 +4,12 @@ HOOKS = [r'^_ZN8fmtquill3v119format_toIPcJR?K?jE=vh_fmt_u32', r'^_ZN8fmtquill3v1
 def rlen(parts):
     import re as _re
     return sum(sum({'s': 10, 'u': 1, '%': 1, 'A': 9}.get(c[1], 2) if c[0] == '%' else 1 for c in _re.findall(r'%.|.', p)) for p in parts)
-def sft(name, parts, tier, ncalls=3, local=False, tzany=False, window=172800, timeout=280, unwind=24):
+def sft(name, parts, tier, ncalls=3, local=False, tzany=False, window=172800, timeout=280, unwind=24, dst=False):
     pattern = ''.join(parts)
-    return Q(name, 'C13_sft.cpp', 'h_sft', defines=['PARTS=%s' % ','.join('"%s"' % p for p in parts), 'PATTERN="%s"' % pattern, 'NCALLS=%d' % ncalls, 'WINDOW=%d' % window, 'RLEN=%d' % rlen(parts)] + (['LOCALTZ'] if local else []) + (['TZANY'] if tzany else []),
+    return Q(name, 'C13_sft.cpp', 'h_sft', defines=['PARTS=%s' % ','.join('"%s"' % p for p in parts), 'PATTERN="%s"' % pattern, 'NCALLS=%d' % ncalls, 'WINDOW=%d' % window, 'RLEN=%d' % rlen(parts)] + (['LOCALTZ'] if local else []) + (['TZANY'] if tzany else []) + (['DST'] if dst else []),
              hooks=HOOKS + [POP], byteloops=True, forbid=[r'^_ZN8fmtquill3v11(6detail)?10vformat_to'],
              models=['m_throw.c', 'm_time.c', 'm_env.c'], libmodels=['m_string.c', 'm_stl.c'], unwind=unwind, unwindset=['_ZN5quill2v96detail14StringFromTime16format_timestampB5cxx11El.0:%d' % (sum(1 for p in parts if p in ('%H', '%M', '%S', '%I', '%k', '%l', '%s')) + 2)], cdefs=['VLL_TIME32', 'VLL_STR_NOGROW'], cbmc=['--slice-formula'], tier=tier, timeout=timeout,
-             bounds='pattern "%s" (split parts given), %s, %d calls with any instants (any order, repeats, backwards) in a %d-second window of ten-digit epochs starting at a midnight' % (pattern, ('a local zone at any quarter-hour offset -14h..+14h' if tzany else 'a local zone at UTC-5 / UTC+5:30 / UTC+5:45') if local else 'GMT', ncalls, window),
+             bounds='pattern "%s" (split parts given), %s, %d calls with any instants (any order, repeats, backwards) in a %d-second window of ten-digit epochs starting at a midnight' % (pattern, ('a local zone at any quarter-hour offset -14h..+14h' if tzany else 'a local zone at UTC-5 / UTC+5:30 / UTC+5:45') if local else 'GMT', ncalls, window) + (', with one daylight-saving transition (+-1 h) at any quarter-hour instant of the window' if dst else ''),
              what='real StringFromTime::format_timestamp (+ _populate_pre_formatted_string_and_cached_indexes, _safe_strftime, next noon/midnight, next quarter hour): the incrementally patched cached string equals a fresh strftime rendering of each instant - no stale hour/minute/second/AM-PM/weekday field across second, minute, hour, noon, midnight and recalculation boundaries, nor after going back in time')
 def pop(name, parts, tier, local=False, window=172800, timeout=280, unwind=24):
     pattern = ''.join(parts)
@@ -40,7 +40,7 @@ P_WN = ['%A ', '%H']
 QUERIES = [tsf_ctor(6, 'quick'), tsf_ctor(8, 'thorough', timeout=1700), tsf_fmt(1, 20, 'unregistered', kind=3), sft('hms_gmt', P_HMS, 'quick', ncalls=2, unwind=12), pop('populate_hms_gmt', P_HMS, 'quick'),
            sft('i_p_gmt', P_12, 'quick', ncalls=2, unwind=12), pop('populate_i_p_local', P_12, 'quick', local=True),
            sft('hms_localany', P_HMS, 'quick', ncalls=2, unwind=12, local=True, tzany=True, timeout=900),
-           sft('h_gmt_n3', ['%H'], 'thorough', ncalls=3, unwind=12, timeout=1700), sft('wdname_h_gmt_n3', P_WN, 'quick', ncalls=3, unwind=14, timeout=1200, window=93600), pop('populate_wdname_gmt', P_WN, 'quick'),
+           sft('hm_local_dst', ['%H', ':', '%M'], 'quick', ncalls=2, unwind=12, local=True, dst=True, window=14400, timeout=900), sft('h_gmt_n3', ['%H'], 'thorough', ncalls=3, unwind=12, timeout=1700), sft('wdname_h_gmt_n3', P_WN, 'quick', ncalls=3, unwind=14, timeout=1200, window=93600), pop('populate_wdname_gmt', P_WN, 'quick'),
            sft('weekday_gmt', P_WD, 'thorough', ncalls=2, unwind=12, timeout=1700), pop('populate_weekday_gmt', P_WD, 'thorough'),
            sft('l_k_gmt', P_LK, 'thorough', ncalls=2, unwind=12, timeout=1700), pop('populate_l_k_gmt', P_LK, 'thorough'),
            sft('epoch_gmt', P_EP, 'thorough', ncalls=2, unwind=14, timeout=1700), pop('populate_epoch_local', P_EP, 'thorough', local=True),
